@@ -993,7 +993,8 @@ func c07Emfile(c *Ctx) {
 
 // emfileEpisode fills the descriptor table so that the server's next accept4 fails with EMFILE, holds that
 // state briefly, then releases everything and restores the limit. Returns how many client sockets were held.
-func emfileEpisode(addr string, parity int) (int, error) {
+// hold: how long the shortage lasts (default 40ms).
+func emfileEpisode(addr string, parity int, hold ...time.Duration) (int, error) {
 	var old syscall.Rlimit
 	if err := syscall.Getrlimit(syscall.RLIMIT_NOFILE, &old); err != nil {
 		return 0, err
@@ -1015,7 +1016,11 @@ func emfileEpisode(addr string, parity int) (int, error) {
 	if cn, err := net.DialTimeout("tcp", addr, 2*time.Second); err == nil {
 		held = append(held, cn)
 	}
-	time.Sleep(40 * time.Millisecond)
+	d := 40 * time.Millisecond
+	if len(hold) > 0 {
+		d = hold[0]
+	}
+	time.Sleep(d)
 	for _, cn := range held {
 		cn.Close()
 	}
